@@ -657,3 +657,144 @@ def roll_flag_loops(body, key, root):
         out.append((ckey, cj))
         body._reset()
     return out
+
+
+# ------------------------------------------------------------------------------------------------------------------
+DISPLAY_ITERS = {
+    # iterator type prefix -> the Display impl that is *defined* as "write every item with write_str, stop at the first error"
+    # percent-encoding 2.3.0 src/lib.rs:299-306:  for c in (*self).clone() { formatter.write_str(c)? }  Ok(())
+    "percent_encoding::PercentEncode<": "<percent_encoding::PercentEncode<'a> as std::fmt::Display>::fmt",
+}
+WRITE_STR_PATHS = ("std::fmt::Formatter::<'a>::write_str", "std::fmt::Write::write_str", "<std::fmt::Formatter<'_> as std::fmt::Write>::write_str")
+
+
+def roll_display_loops(body, key):
+    """`for chunk in enc { f.write_str(chunk)?; }`   ==   `fmt::Display::fmt(&enc, f)?`   for an iterator type whose Display impl
+    is defined as exactly that loop (DISPLAY_ITERS).  The hand-written loop is what `write!(f, "{}", enc)` runs anyway; rolled
+    back, the formatter model reads one encode-and-emit piece again.  The error handling after write_str (`?` or an explicit
+    `match`) is kept as it is: it now handles the result of the one fmt call, and the way back to the loop head becomes the
+    way out of the loop.  Inlined view only.  Returns the number of loops rolled."""
+    blocks = body.blocks
+    n = 0
+    for h, blk in sorted(body.loops().items()):
+        hd = _loop_head(body, h, blk)
+        if hd is None:
+            continue
+        nloc, iter_local, test, exit_bb, bb = hd
+        ity = body.locals[iter_local]["ty"]
+        disp = None
+        for pre, d in DISPLAY_ITERS.items():
+            if ity.startswith(pre):
+                disp = d
+        if disp is None:
+            continue
+        # the chain from the Some arm to the write_str call
+        cur = bb
+        seen = set()
+        stmts = []
+        wcall = None
+        ok = True
+        while True:
+            if cur in seen or cur not in blk:
+                ok = False
+                break
+            seen.add(cur)
+            stmts.extend(blocks[cur]["stmts"])
+            t = blocks[cur]["term"]
+            if t["t"] == "goto":
+                cur = t["target"]
+                continue
+            if t["t"] == "call" and (t["callee"].get("path") in WRITE_STR_PATHS or (t["callee"].get("resolved") or {}).get("path") in WRITE_STR_PATHS or t["callee"].get("item") == "write_str") and len(t["args"]) == 2 and t.get("target") is not None and not t["dest"]["proj"]:
+                wcall = cur
+            else:
+                ok = False
+            break
+        if not ok or wcall is None:
+            continue
+        wt = blocks[wcall]["term"]
+        # item-derived locals: the payload of the Some and its reborrows
+        derived = {nloc}
+        keep = []
+        for st in stmts:
+            if st.get("s") == "other":
+                continue
+            if st.get("s") != "assign" or st["place"]["proj"]:
+                ok = False
+                break
+            if any(pl["l"] in derived for pl in _places([st["rv"]])):
+                if st["rv"]["r"] not in ("use", "ref"):
+                    ok = False
+                    break
+                derived.add(st["place"]["l"])
+            else:
+                if st["rv"]["r"] not in ("use", "ref"):
+                    ok = False
+                    break
+                keep.append(st)
+        if not ok:
+            continue
+        a_f, a_item = wt["args"]
+        if a_item["o"] not in ("copy", "move") or a_item["place"]["l"] not in derived or any(pl["l"] in derived for pl in _places([a_f])):
+            continue
+        # after the call: everything in the loop is error plumbing that either leaves the loop or returns to the head; no
+        # further call except Try::branch, no use of the item
+        rest = set(blk) - seen - {h, test}
+        fine = True
+        for b2 in rest:
+            bl2 = blocks[b2]
+            t2 = bl2["term"]
+            if t2["t"] == "call" and t2["callee"].get("path") != "std::ops::Try::branch":
+                fine = False
+            if t2["t"] not in ("call", "goto", "switch", "drop"):
+                fine = False
+            if any(pl["l"] in derived for pl in _places([bl2["stmts"], t2])):
+                fine = False
+            for st in bl2["stmts"]:
+                if st.get("s") == "assign" and st["place"]["proj"]:
+                    fine = False
+        # the iterator and the item are not used outside the loop head / chain
+        for b2, bl2 in enumerate(blocks):
+            if bl2["cleanup"] or bl2.get("dead") or b2 in seen or b2 in (h, test):
+                continue
+            if any(pl["l"] in derived for pl in _places([bl2["stmts"], bl2["term"]])):
+                fine = False
+        if not fine:
+            continue
+        # ---- rewrite: head = kept statements; r = Display::fmt(&it, f) -> the old continuation of write_str; back edges -> exit
+        nl = len(body.locals)
+        body.locals.append({"ty": "&" + ity, "mut": False, "model": True})
+        line = blocks[wcall]["stmts"][-1].get("line") if blocks[wcall]["stmts"] else None
+        newstmts = [st for st in keep] + [{"s": "assign", "place": {"l": nl, "proj": [], "s": "_%d" % nl}, "rv": {"r": "ref", "bk": "shared", "place": {"l": iter_local, "proj": [], "s": "_%d" % iter_local}}, "line": line, "model": True}]
+        newterm = {
+            "t": "call",
+            "callee": {"path": "std::fmt::Display::fmt", "full": disp, "args": [ity], "local": False, "resolved": {"path": disp, "full": disp, "args": [], "local": False, "kind": "Item"}, "trait": "std::fmt::Display", "item": "fmt", "rolled": True},
+            "args": [{"o": "move", "place": {"l": nl, "proj": [], "s": "_%d" % nl}}, copy.deepcopy(a_f)],
+            "dest": copy.deepcopy(wt["dest"]),
+            "target": wt["target"],
+            "unwind": wt.get("unwind", "continue"),
+        }
+        for k_ in ("span", "fn_span", "line"):
+            if k_ in wt:
+                newterm[k_] = wt[k_]
+        # the head keeps its own statements that do not borrow the iterator for `next`
+        hst = [st for st in blocks[h]["stmts"] if not (st.get("s") == "assign" and st["rv"]["r"] == "ref" and st["rv"].get("bk") == "mut")]
+        blocks[h]["stmts"] = hst + newstmts
+        blocks[h]["term"] = newterm
+        blocks[h]["span"] = blocks[wcall].get("span", blocks[h].get("span"))
+        for b2 in rest:
+            t2 = blocks[b2]["term"]
+            if t2["t"] == "goto" and t2["target"] == h:
+                t2["target"] = exit_bb
+            elif t2["t"] == "switch":
+                t2["arms"] = [[v, (exit_bb if tg == h else tg)] for (v, tg) in t2["arms"]]
+                if t2["otherwise"] == h:
+                    t2["otherwise"] = exit_bb
+            elif t2["t"] in ("call", "drop") and t2.get("target") == h:
+                t2["target"] = exit_bb
+        for b2 in (seen | {test}) - {h}:
+            blocks[b2]["stmts"] = []
+            blocks[b2]["term"] = {"t": "unreachable"}
+            blocks[b2]["dead"] = True
+        n += 1
+        body._reset()
+    return n
